@@ -35,6 +35,14 @@ MARK = "abcdefghijklmnopqrstuvwxyz"
 
 
 def run_impl(case):
+    import warnings
+
+    with warnings.catch_warnings():
+        warnings.simplefilter("ignore")  # numpy's "overflow encountered in cast" for huge values in narrow float fields
+        return _run_impl(case)
+
+
+def _run_impl(case):
     m = case["mode"]
     try:
         if m == "field":
@@ -70,6 +78,10 @@ def run_impl(case):
                 ln.fields = fs
                 return {"out": codec.enc_data(ln.write(vals))}
             ln = Line(fs, storage=case["storage"])
+            if case.get("nvals") is not None:
+                # fewer values than fields: the fields without a value still belong to the layout
+                # (a fresh line holds None for them: blanks)
+                return {"out": codec.enc_data(ln.write(vals[: case["nvals"]]))}
             return {"out": codec.enc_data(ln.write(vals))}
         if m == "defaults":
             from cfinterface.components.literalfield import LiteralField
@@ -109,7 +121,10 @@ def request(case, obs):
         span = (0 if v is None else v).to_bytes(case["field"]["size"], "little", signed=True)
         return {"op": "c02", "mode": "field_struct", "field": case["field"], "line": case["line"], "out": obs["out"], "span_expected": codec.enc_data(span)}
     if m == "line":
-        return {"op": "c02", "mode": "line", "fields": case["fields"], "values": case["values"], "storage": case["storage"], "out": obs["out"]}
+        values = case["values"]
+        if case.get("nvals") is not None and case.get("via") == "write_arg":
+            values = values[: case["nvals"]] + [None] * (len(values) - case["nvals"])
+        return {"op": "c02", "mode": "line", "fields": case["fields"], "values": values, "storage": case["storage"], "out": obs["out"]}
     if "geometry" not in obs:
         return {"op": "c02", "mode": "defaults", "geometry": [], "float_format": [], "float_sep": [], "date_format": []}
     return {"op": "c02", "mode": "defaults", **{k: obs[k] for k in ("geometry", "float_format", "float_sep", "date_format")}}
@@ -290,7 +305,8 @@ def random_layout(rng, binary=False):
         "fields": [fields[i] for i in order],
         "values": [values[i] for i in order],
         "storage": "BINARY" if binary else rng.choice(["", "TEXT"]),
-        "via": rng.choice(["write_arg", "values_arg", "fields_setter"]),
+        "via": rng.choice(["write_arg", "write_arg", "values_arg", "fields_setter"]),
+        "nvals": rng.randrange(0, n) if n > 0 and rng.random() < 0.25 else None,
     }
 
 
